@@ -113,6 +113,7 @@ theorem goto_joinReset (c : ECfg S) (hv : c.variant = .main) : ∀ (fuel : Nat) 
       intro o ho
       rw [keepCurOnError_snd] at ho
       have := hl o ho
+      rw [keepCurOnError_fst_of_ok _ _ o ho]
       simpa [Live.joinSec] using this
     unfold goto
     split
